@@ -466,16 +466,17 @@ class ClientSSM(SSM):
                 self.restart_timer(self.segmentTimeout)
 
             # final ack received?
-            elif self.sentAllSegments:
+            elif self.sentAllSegments and (self.initialSequenceNumber + ((apdu.apduSeq - self.initialSequenceNumber) % 256) == self.segmentCount - 1):
                 if _debug: ClientSSM._debug("    - all done sending request")
                 self.set_state(AWAIT_CONFIRMATION, self.apduTimeout)
 
-            # more segments to send
+            # more segments to send, or the rest of the last window again
             else:
                 if _debug: ClientSSM._debug("    - more segments to send")
 
                 # sequence numbers wrap at 256, the position in the APDU does not
                 self.initialSequenceNumber += ((apdu.apduSeq - self.initialSequenceNumber) % 256) + 1
+                self.sentAllSegments = False
                 self.segmentRetryCount = 0
                 self.fill_window(self.initialSequenceNumber)
                 self.restart_timer(self.segmentTimeout)
@@ -1121,7 +1122,7 @@ class ServerSSM(SSM):
                 self.restart_timer(self.segmentTimeout)
 
             # final ack received?
-            elif self.sentAllSegments:
+            elif self.sentAllSegments and (self.initialSequenceNumber + ((apdu.apduSeq - self.initialSequenceNumber) % 256) == self.segmentCount - 1):
                 if _debug: ServerSSM._debug("    - all done sending response")
                 self.set_state(COMPLETED)
 
@@ -1131,6 +1132,7 @@ class ServerSSM(SSM):
                 # sequence numbers wrap at 256, the position in the APDU does not
                 self.initialSequenceNumber += ((apdu.apduSeq - self.initialSequenceNumber) % 256) + 1
                 self.actualWindowSize = apdu.apduWin
+                self.sentAllSegments = False
                 self.segmentRetryCount = 0
                 self.fill_window(self.initialSequenceNumber)
                 self.restart_timer(self.segmentTimeout)
